@@ -72,7 +72,7 @@ def gen_plan(seed, index, tier):
     nq = rng.randint(1, 10)
     plan = {
         "v": 1, "rows": rows, "moment": kind, "bound_kind": bound_kind,
-        "bound": rng.choice([0.0, 0.01, 0.05, 0.1]), "ratio": 1.0 if bound_kind == "diff" else rng.choice([0.5, 0.8, 0.9, 1.0]),
+        "bound": rng.choice([0.0, 0.01, 0.05, 0.1, 0.2]), "ratio": 1.0 if bound_kind == "diff" else rng.choice([0.5, 0.8, 0.9, 1.0]),
         "grid_size": rng.choice([3, 5]) if aligned else rng.choice([2, 3, 4, 5, 7, 10, 13, 20, 31, 45, 60]),
         "grid_limit": rng.choice([1.0, 2.0]) if aligned else rng.choice([0.5, 1.0, 2.0, 3.7, 10.0]),
         "cw": rng.choice([0.0, 0.25, 0.5, 0.5, 1.0]),
